@@ -4,12 +4,15 @@ Collects the property theorems: `Props/C20Base.lean` (algebra of the executable 
 (object-level about-centre helpers with each centre convention, the `Scale` factory with `n_dims`, `init_identity`,
 texture coordinates for every shape, constructor table), `Props/C20Real.lean` (the statements over ℝ with `Real.cos`,
 `Real.sin`, `Real.arccos`, the coded 3-D axis/angle algorithm), `Props/C20Euler.lean` (Euler's rotation theorem: the
-3-D axis/angle clause for every proper rotation matrix), and states the combined forms.
+3-D axis/angle clause for every proper rotation matrix), `Props/C20Src.lean` (theorems about the definitions the TRANSLATED
+SOURCE is proved equal to: the `degrees` flag, the class ladder, the chain fall-back, the matrix of `_as_vector`, the
+decision and the computation of the 3-D axis/angle recovery), and states the combined forms.
 -/
 import MenpoModel.Props.C20Base
 import MenpoModel.Props.C20Ext
 import MenpoModel.Props.C20Real
 import MenpoModel.Props.C20Euler
+import MenpoModel.Props.C20Src
 
 open Matrix Real
 namespace MenpoModel.C20
